@@ -355,7 +355,7 @@ class XArray:
         return shape, offs
 
     def __getitem__(self, key):
-        if isinstance(key, XArray) and key.ndim >= 2:
+        if isinstance(key, XArray) and key.ndim >= 2 and not (key.data and all(isinstance(v, bool) for v in key.data)):
             # a[index_array]: result shape = index shape + trailing shape
             step = _prod(self.shape[1:])
             out = []
@@ -549,6 +549,10 @@ class XArray:
                 b = pick(b, x)
             return b
 
+        if self.size == 0:
+            from .xeval import XRaise
+
+            raise XRaise("ValueError", "zero-size array to reduction operation which has no identity")
         if axis is None:
             return best(list(self.data))
         axis = int(axis) % self.ndim
